@@ -213,3 +213,155 @@ Proof. exists [x61; CR; SP]. split; [reflexivity|]. vm_compute. discriminate. Qe
 Theorem signed_form_merged_refuted :
   exists t, signed_form_merged (canon t) <> signed_form_merged t.
 Proof. exists [x61; CR; SP; LF]. vm_compute. discriminate. Qed.
+
+(* ------------------------------------------------ LF <-> CR LF conversion of a whole text *)
+
+Definition lf_free (x : bytes) : bool := forallb (fun b => negb (beq b LF)) x.
+
+Lemma lines_incl_line x y : lf_free x = true -> lines_incl (x ++ LF :: y) = (x ++ [LF]) :: lines_incl y.
+Proof.
+  induction x as [|a x IH]; intros Hx.
+  - cbn [app lines_incl]. rewrite beq_refl. reflexivity.
+  - cbn [lf_free forallb] in Hx. apply andb_prop in Hx. destruct Hx as [Ha Hx].
+    cbn [app lines_incl]. destruct (beq a LF); [discriminate|]. rewrite (IH Hx). reflexivity.
+Qed.
+
+Lemma lines_incl_lf_free x : lf_free x = true -> lines_incl x = match x with [] => [] | _ => [x] end.
+Proof.
+  induction x as [|a x IH]; intros Hx; [reflexivity|].
+  cbn [lf_free forallb] in Hx. apply andb_prop in Hx. destruct Hx as [Ha Hx].
+  cbn [lines_incl]. destruct (beq a LF); [discriminate|]. rewrite (IH Hx). destruct x; reflexivity.
+Qed.
+
+(* a text is LF-free, or a first line and the rest *)
+Lemma text_split t : lf_free t = true \/ exists c t', t = c ++ LF :: t' /\ lf_free c = true.
+Proof.
+  induction t as [|a t IH]; [left; reflexivity|].
+  destruct (beq_spec a LF) as [->|Ha].
+  - right. exists [], t. split; reflexivity.
+  - destruct IH as [Hf|(c & t' & -> & Hc)].
+    + left. cbn [lf_free forallb]. apply beq_false in Ha. rewrite Ha. exact Hf.
+    + right. exists (a :: c), t'. split; [reflexivity|]. cbn [lf_free forallb]. apply beq_false in Ha. rewrite Ha. exact Hc.
+Qed.
+
+Lemma canon_from_lf_free p x : lf_free x = true -> canon_from p x = x.
+Proof.
+  revert p; induction x as [|a x IH]; intros p Hx; [reflexivity|].
+  cbn [lf_free forallb] in Hx. apply andb_prop in Hx. destruct Hx as [Ha Hx].
+  cbn [canon_from]. destruct (beq a LF); [discriminate|]. cbn [app]. rewrite (IH _ Hx). reflexivity.
+Qed.
+
+(* the converted first line: content, CR unless one is there already, LF *)
+Definition with_cr (c : bytes) : bytes := if ends_in_cr c then c else c ++ [CR].
+
+Lemma ends_cr_ends_in_cr c : ends_cr false c = ends_in_cr c.
+Proof. destruct c; reflexivity. Qed.
+
+Lemma canon_first_line c t' :
+  lf_free c = true -> canon (c ++ LF :: t') = with_cr c ++ LF :: canon t'.
+Proof.
+  intros Hc. rewrite canon_app. unfold canon at 1. rewrite (canon_from_lf_free false c Hc).
+  cbn [canon_from]. rewrite beq_refl. rewrite ends_cr_ends_in_cr. unfold with_cr.
+  replace (beq LF CR) with false by reflexivity. fold (canon t').
+  destruct (ends_in_cr c); [reflexivity|]. rewrite <- app_assoc. reflexivity.
+Qed.
+
+Lemma with_cr_lf_free c : lf_free c = true -> lf_free (with_cr c) = true.
+Proof.
+  intros Hc. unfold with_cr. destruct (ends_in_cr c); [exact Hc|].
+  unfold lf_free. rewrite forallb_app. fold (lf_free c). rewrite Hc. reflexivity.
+Qed.
+
+(* dash escaping and trimming go line by line *)
+Definition pre_of (x : bytes) : bytes := if starts_dash x then [DASH; SP] else [].
+
+Lemma esc_line_first x s : (x = [] -> starts_dash s = false) -> esc_line (x ++ s) = pre_of x ++ x ++ s.
+Proof.
+  intros Hs. unfold esc_line, pre_of. destruct x as [|a x]; cbn [app starts_dash].
+  - rewrite (Hs eq_refl). reflexivity.
+  - destruct (beq a DASH); reflexivity.
+Qed.
+
+Lemma dash_escape_first x y : lf_free x = true ->
+  dash_escape (x ++ LF :: y) = (pre_of x ++ x) ++ LF :: dash_escape y.
+Proof.
+  intros Hx. unfold dash_escape. rewrite (lines_incl_line x y Hx). cbn [map concat].
+  rewrite (esc_line_first x [LF]) by (intros _; reflexivity). rewrite <- !app_assoc. reflexivity.
+Qed.
+
+Lemma pre_lf_free x : lf_free x = true -> lf_free (pre_of x ++ x) = true.
+Proof. intros Hx. unfold pre_of. destruct (starts_dash x); [cbn; exact Hx|exact Hx]. Qed.
+
+Lemma unescape_trim_first w z : lf_free w = true ->
+  unescape_trim (w ++ LF :: z) = ut_line (w ++ [LF]) ++ unescape_trim z.
+Proof. intros Hw. unfold unescape_trim. rewrite (lines_incl_line w z Hw). reflexivity. Qed.
+
+Lemma ends_in_cr_last w0 b : ends_in_cr (w0 ++ [b]) = beq b CR.
+Proof.
+  unfold ends_in_cr. destruct (w0 ++ [b]) eqn:E; [destruct w0; discriminate|]. rewrite <- E, last_last. reflexivity.
+Qed.
+
+Lemma ends_in_cr_snoc w : ends_in_cr w = true -> exists w0, w = w0 ++ [CR].
+Proof.
+  intros H. destruct w as [|a w']; [discriminate|].
+  assert (Hne : a :: w' <> []) by discriminate.
+  destruct (exists_last Hne) as (w0 & b & E). exists w0. rewrite E in H.
+  rewrite ends_in_cr_last in H. apply beq_true in H. subst b. exact E.
+Qed.
+
+(* whatever the line, the trimmed line ends in LF: the canonicaliser's state is reset behind it *)
+Lemma ut_line_ends_lf w : exists u, ut_line (w ++ [LF]) = u ++ [LF].
+Proof.
+  unfold ut_line. destruct (ends_in_cr w) eqn:Ew.
+  - destruct (ends_in_cr_snoc w Ew) as (w0 & ->). rewrite <- app_assoc. cbn [app].
+    rewrite split_eol_crlf. cbn [is_lf andb]. replace (beq CR LF) with false by reflexivity.
+    exists (trim_end (strip_dash_sp w0) ++ [CR]). rewrite <- app_assoc. reflexivity.
+  - rewrite (split_eol_lf w Ew). cbn [is_lf]. rewrite beq_refl. cbn [andb].
+    destruct (ends_in_cr (trim_end (strip_dash_sp w))).
+    + exists (trim_end (strip_dash_sp w) ++ [CR]). rewrite <- app_assoc. reflexivity.
+    + eexists. reflexivity.
+Qed.
+
+Lemma canon_behind_line u z : canon ((u ++ [LF]) ++ z) = canon (u ++ [LF]) ++ canon z.
+Proof.
+  rewrite canon_app. f_equal. unfold ends_cr. destruct (u ++ [LF]) eqn:E; [destruct u; discriminate|].
+  rewrite <- E, last_last. reflexivity.
+Qed.
+
+Lemma signed_form_first c t' : lf_free c = true ->
+  signed_form (c ++ LF :: t') = canon (ut_line ((pre_of c ++ c) ++ [LF])) ++ signed_form t'.
+Proof.
+  intros Hc. unfold signed_form. rewrite (dash_escape_first c t' Hc).
+  rewrite (unescape_trim_first _ _ (pre_lf_free c Hc)).
+  destruct (ut_line_ends_lf (pre_of c ++ c)) as (u & Hu). rewrite Hu. apply canon_behind_line.
+Qed.
+
+Lemma pre_with_cr c : pre_of (with_cr c) = pre_of c.
+Proof.
+  unfold with_cr, pre_of. destruct (ends_in_cr c) eqn:E; [reflexivity|].
+  destruct c; [reflexivity|]. reflexivity.
+Qed.
+
+Lemma ends_in_cr_pre c : ends_in_cr (pre_of c ++ c) = ends_in_cr c.
+Proof.
+  unfold pre_of. destruct (starts_dash c) eqn:Es; [|reflexivity].
+  destruct c as [|a c']; [discriminate|]. cbn [app]. unfold ends_in_cr.
+  change (DASH :: SP :: a :: c') with ([DASH; SP] ++ (a :: c')). rewrite last_app_ne by discriminate. reflexivity.
+Qed.
+
+(* converting a document between LF and CR LF line endings does not change what is signed *)
+Theorem signed_form_crlf_invariant t : signed_form (canon t) = signed_form t.
+Proof.
+  remember (length t) as n eqn:Hn. revert t Hn.
+  induction n as [n IH] using lt_wf_ind. intros t Hn.
+  destruct (text_split t) as [Hf|(c & t' & -> & Hc)].
+  - unfold canon. rewrite (canon_from_lf_free false t Hf). reflexivity.
+  - rewrite (canon_first_line c t' Hc).
+    rewrite (signed_form_first (with_cr c) (canon t') (with_cr_lf_free c Hc)).
+    rewrite (signed_form_first c t' Hc).
+    rewrite (IH (length t')) by (try reflexivity; subst n; rewrite app_length; cbn [length]; lia).
+    f_equal. rewrite pre_with_cr. unfold with_cr.
+    destruct (ends_in_cr c) eqn:Ec; [reflexivity|].
+    rewrite app_assoc, <- (app_assoc (pre_of c ++ c) [CR] [LF]). cbn [app].
+    symmetry. apply ut_line_lf_crlf. rewrite ends_in_cr_pre. exact Ec.
+Qed.
